@@ -99,6 +99,13 @@ def _store_at(o, v, index):
 
 def apply(store, op):
     t = op[0]
+    if t == 'setoptfrom':
+        # set-from-text handed the string the option itself returns for one of its elements
+        _, path, sidx = op
+        so = _opt(store, path)
+        if so is None or so.decl.kind != 'str' or so.decl.has('S') or sidx >= len(so.values) or so.values[sidx] is None or 'p' in so.decl.cbs:
+            return None
+        return apply(store, ('setopt', path, so.values[sidx]))
     if t == 'setlistfrom':
         # a string list set to a selection of its own elements, each handed over as the getter returned it
         _, path, idxs = op
@@ -294,6 +301,9 @@ def driver_line(op, ctx='A'):
         if index is not None:
             l += ' %d' % index
         return l, 'r ' + _KOPS[kind]
+    if t == 'setoptfrom':
+        _, path, sidx = op
+        return 'setopt_from %s %d' % (optref(ctx, path), sidx), 'r setopt_from'
     if t == 'setlistfrom':
         _, path, idxs = op
         return 'setlist_from %s %s %d %s' % (ctx, enc(path), len(idxs), ' '.join('%d' % k for k in idxs)), 'r setlist_from'
